@@ -407,6 +407,7 @@ def run(ctx):
     reuse_stream(ctx, "MVCAPA", lambda: MVCAPA(min_segment_length=2), ctx.n(6, 40), p_choices=(2, 3))
     capa_params_stream(ctx)
     cross_instance_stream(ctx)
+    hyperparams_and_input_untouched_stream(ctx)
     reuse_stream(ctx, "StatThresholdAnomaliser(PELT)", lambda: StatThresholdAnomaliser(PELT(min_segment_length=2), stat_lower=-1.0, stat_upper=1.0), ctx.n(4, 30),
                  p_choices=(1,), other_shape=False)
 
@@ -461,6 +462,71 @@ def cross_instance_stream(ctx):
                                   f"interpreter reports {str(want[0])[:140]} (detections and published scores compared): state leaks between instances", dict(inp, which=which, got=got, alone=want),
                                   {"what": "state-shared-between-instances", "detector": nm})
                     break
+
+
+def _params_fingerprint(est):
+    """canonical text of get_params(deep=True): nested estimators by class name, arrays by value"""
+    out = []
+    for k, v in sorted(est.get_params(deep=True).items()):
+        if hasattr(v, "get_params"):
+            v = type(v).__name__
+        elif isinstance(v, np.ndarray):
+            v = ("ndarray", v.tolist())
+        elif callable(v):
+            v = getattr(v, "__name__", "callable")
+        out.append(f"{k}={v!r}")
+    return "; ".join(out)
+
+
+def hyperparams_and_input_untouched_stream(ctx):
+    """Using a detector neither rewrites its hyper-parameters nor the caller's data object: get_params() is the same before and after fit / predict / transform /
+    transform_scores (so that a re-fit on ANOTHER series behaves like a fresh detector: "results depend only on hyper-parameters, training data, input"), and the frame passed
+    in keeps its values, its column labels and its (named) index.  Defaults are used where the default is LARGER than the series (max_interval_length = 1000 / 200)."""
+    from harness import isolated
+    rng = ctx.rng
+    configs = [("PELT", {}), ("MovingWindow", {"bandwidth": 5}), ("SeededBinarySegmentation", {}), ("CircularBinarySegmentation", {}),
+               ("CircularBinarySegmentation", {"max_interval_length": 60, "min_segment_length": 3}), ("CAPA", {}), ("MVCAPA", {}), ("CAPA", {"max_segment_length": 500})]
+    for rep in range(ctx.n(2, 8)):
+        nA, nB = rng.randint(30, 45), rng.randint(90, 130)
+        A = np.asarray([[rng.gauss(0, 1)] for _ in range(nA)])
+        A[10:16] += 7.0
+        B = np.asarray([[rng.gauss(0, 1)] for _ in range(nB)])
+        B[40:95] += 6.0                         # one LONG event: longer than series A
+        for nm, kw in configs:
+            inp = {"detector": nm, "hyper_parameters": kw, "A": A.tolist(), "B": B.tolist()}
+            d = isolated.build(nm, kw)
+            fp0 = _params_fingerprint(d)
+            FA = pd.DataFrame(A.copy(), index=pd.date_range("2020-05-01", periods=nA, freq="h", name="timestamp"), columns=["level"])
+            keep = (FA.to_numpy().copy(), list(FA.columns), FA.index.copy(), FA.index.name)
+            ctx.case({"untouched": nm, "rep": rep, "kw": str(kw)}, nontrivial=True)
+            ctx.count("hyperparams_untouched", nm)
+            bad = None
+            try:
+                for step in ["fit", "predict", "transform", "transform_scores", "fit_predict"]:
+                    try:
+                        getattr(d, step)(FA)
+                    except NotImplementedError:
+                        continue
+                    if _params_fingerprint(d) != fp0:
+                        bad = (f"{nm}({kw}): get_params() after {step} on a series of {nA} rows is [{_params_fingerprint(d)[:300]}], at construction it was [{fp0[:300]}]: using the detector "
+                               f"rewrote a hyper-parameter", "hyper-parameter-rewritten")
+                        break
+                    if not (np.array_equal(FA.to_numpy(), keep[0]) and list(FA.columns) == keep[1] and FA.index.equals(keep[2]) and FA.index.name == keep[3]):
+                        bad = (f"{nm}({kw}): {step} changed the caller's frame (values / column labels / index, index name now {FA.index.name!r}, was {keep[3]!r})", "caller-frame-changed")
+                        break
+                if bad is None:
+                    d.fit(B.copy())
+                    det = isolated.canon(d.predict(B.copy()))
+                    want = isolated.run_one(nm, kw, B)[0]
+                    if det != want:
+                        bad = (f"{nm}({kw}) used on a series of {nA} rows and then re-fitted on one of {nB} rows reports {str(det)[:160]}; a fresh detector with the same hyper-parameters "
+                               f"reports {str(want)[:160]}", "refit-differs-from-fresh")
+            except Exception as ex:
+                ctx.violation(f"{nm}({kw}): fit / predict / transform on a frame with a named index raised {type(ex).__name__}: {str(ex)[:120]}", inp,
+                              {"what": "exception", "op": "untouched", "cls": type(ex).__name__})
+                continue
+            if bad:
+                ctx.violation(bad[0], inp, {"what": bad[1], "detector": nm})
 
 
 def capa_params_stream(ctx):
